@@ -48,26 +48,26 @@ func (b *rBroker) clearSession() {
 }
 
 type scenario struct {
-	mu      sync.Mutex
-	cond    *sync.Cond
-	faults  []string
-	broker  *rBroker
-	conns   []*sConn
-	wire    []wireEntry
-	seq     int
-	dialReq int // DialContext calls so far
-	dialCh  chan dialResult
-	onErr   []string // "r" / "t" (plain errors are not logged)
-	onErrAt []time.Time
-	handled []string
-	cur     int // connection whose CONNACK was accepted last (-1: none)
-	msgConn map[int]int
-	states  []string
-	dialAt  []time.Time
-	endAt   map[int]time.Time
-	answerPings bool    // the broker answers PINGREQ (keep-alive scenarios)
-	failAt  []time.Time // the failures that start a back-off wait, in order (dial failure, connection end)
-	used    []string    // faults applied so far
+	mu          sync.Mutex
+	cond        *sync.Cond
+	faults      []string
+	broker      *rBroker
+	conns       []*sConn
+	wire        []wireEntry
+	seq         int
+	dialReq     int // DialContext calls so far
+	dialCh      chan dialResult
+	onErr       []string // "r" / "t" (plain errors are not logged)
+	onErrAt     []time.Time
+	handled     []string
+	cur         int // connection whose CONNACK was accepted last (-1: none)
+	msgConn     map[int]int
+	states      []string
+	dialAt      []time.Time
+	endAt       map[int]time.Time
+	answerPings bool        // the broker answers PINGREQ (keep-alive scenarios)
+	failAt      []time.Time // the failures that start a back-off wait, in order (dial failure, connection end)
+	used        []string    // faults applied so far
 }
 
 func (s *scenario) faultsUsed() []string { return s.used }
@@ -77,15 +77,15 @@ type dialResult struct {
 }
 
 type sConn struct {
-	sc       *scenario
-	k        int
-	closed   bool // transport unusable (local Close, write failure, or peer closed)
-	peerEOF  bool // reads return EOF after the buffered data
-	in       []byte
-	cli      *mqtt.BaseClient
-	accepted bool
-	answered bool // the CONNACK gate has been resolved (accepted, refused or left to time out)
-	readerWaiting bool // the client's reader goroutine is blocked in Read with nothing buffered
+	sc             *scenario
+	k              int
+	closed         bool // transport unusable (local Close, write failure, or peer closed)
+	peerEOF        bool // reads return EOF after the buffered data
+	in             []byte
+	cli            *mqtt.BaseClient
+	accepted       bool
+	answered       bool // the CONNACK gate has been resolved (accepted, refused or left to time out)
+	readerWaiting  bool // the client's reader goroutine is blocked in Read with nothing buffered
 	sessionPresent bool
 	createdAt      time.Time
 	ackAt          time.Time
@@ -353,9 +353,9 @@ func parsePlan(s string) []planPoint {
 }
 
 const (
-	planTimeout      = 4 * time.Second
-	retryBase        = 4 * time.Millisecond
-	retryMax         = 16 * time.Millisecond
+	planTimeout = 4 * time.Second
+	retryBase   = 4 * time.Millisecond
+	retryMax    = 16 * time.Millisecond
 	// generous: they only fire in scripts that contain a silent fault / an unanswered CONNECT, and a
 	// loaded machine must not make them fire anywhere else
 	retryRespTimeout = 700 * time.Millisecond
